@@ -49,6 +49,18 @@ func genC01(repo string) (string, error) {
 			return "", err
 		}
 	}
+	// loadTimestamp: ONE read of the whole prefix, maximum over the keys ending in "timestamp"
+	if err := o.skeleton(ts, "timestampOracle", "loadTimestamp", "skel_loadTimestamp", goast.SkelOpt{
+		Calls: set("HasSuffix", "ParseTimestamp", "SubRealTimeByWallClock"), ArgCalls: set("EtcdKVGet"), Assigns: set("maxTSWindow"), Conds: true, Branches: true}); err != nil {
+		return "", err
+	}
+	eu, err := goast.Load(repo, "pkg/etcdutil/etcdutil.go")
+	if err != nil {
+		return "", err
+	}
+	if err := o.skeleton(eu, "", "EtcdKVGet", "skel_EtcdKVGet", goast.SkelOpt{ArgCalls: set("Get"), Conds: true}); err != nil {
+		return "", err
+	}
 	am, err := goast.Load(repo, "server/tso/allocator_manager.go")
 	if err != nil {
 		return "", err
